@@ -45,6 +45,11 @@ let handle (line : string) : string =
       (match root_of tbl root with
        | None -> "NOROOT"
        | Some r -> string_of_cl (run_spec tbl r (bytes_of_hex hex)))
+  | ["lenient"; tb; root; hex] ->
+      let tbl = tables_of tb in
+      (match root_of tbl root with
+       | None -> "NOROOT"
+       | Some r -> string_of_cl (run_spec_lenient tbl r (bytes_of_hex hex)))
   | ["obj"; tb; root; hex] ->
       let tbl = tables_of tb in
       (match root_of tbl root with
